@@ -3,10 +3,24 @@
 // Contracts for govc (comment-only file; see /verif/DESIGN.md section 3).
 package taproot
 
-// bip340_valid(pk, sig, m) names the verdict of BIP-340 verification on these byte strings; callers' gates are
-// stated against it. (The body of Verify is not yet under a functional contract: C16 not claimed for it.)
-//@ spec fn bip340_valid(Int, Int, Int) Bool
-//@ func (PublicKey).Verify
+// BIP-340 tagged hash: tagged(tag, x_1 || ... || x_n) names SHA256(SHA256(tag) || SHA256(tag) || x_1 || ... || x_n).
+// The body is checked for panics only; that it computes this value is an assumed summary (eight lines of sha256 calls).
+//@ spec fn tagged(Int, Int) Int
+//@ func TaggedHash
+//@   nopanic[C05]
 //@   modifies nothing
 //@   allocates
-//@   summary result == bip340_valid(bval(pk), bval(sig), bval(m))
+//@   ensures result != nil && len(result) == 32 && fresh(result)
+//@   summary bval(result) == tagged(tag, fold(datas, wempty(), acc, x, wcat(acc, bval(x))))
+
+// BIP-340 verification (C16, C01), in the abstract group:
+//   P = lift_x(pk) (fail if none); s = int(sig[32:64]) (fail if >= n); e = int(tagged("BIP0340/challenge", r || pk || m)) mod n,
+//   R = s*G - e*P; fail if R is infinite or has odd y; accept iff x(R) == sig[0:32] (as bytes: rejects r >= p too);
+//   fail unless len(sig) == 64.
+//@ pred bip340_R(pk PublicKey, sig Signature, m []byte) := p_add(act(sc_mod(bval(sig[32:])), gen()), p_neg(act(sc_mod(tagged("BIP0340/challenge", wcat(wcat(wcat(wempty(), bval(sig[:32])), bval(pk)), bval(m)))), liftx(bval(pk)))))
+//@ pred bip340_ok(pk PublicKey, sig Signature, m []byte) := len(sig) == 64 && liftx_ok(bval(pk)) && sc_canon(bval(sig[32:])) && bip340_R(pk, sig, m) != p_id() && even_y(bip340_R(pk, sig, m)) && xbytes(bip340_R(pk, sig, m)) == bval(sig[:32])
+//@ func (PublicKey).Verify
+//@   nopanic[C05,C16]
+//@   modifies nothing
+//@   allocates
+//@   ensures[C16,C01] result == bip340_ok(pk, sig, m)
